@@ -1,7 +1,7 @@
 (* SessEnd.v -- what a reader obtains when its stream ends because the session ends (transport EOF, close):
    everything that was dispatched, then Eof.  Completes C01 ("when it ends it has seen all of it"). *)
 From Coq Require Import List NArith ZArith Lia Bool.
-From AnyTLS Require Import Bytes Cmd Generated GeneratedFacts Frame Reader Session BytesFacts FrameProofs
+From AnyTLS Require Import Bytes Cmd Generated FactsCore FactsSession Frame Reader Session BytesFacts FrameProofs
   ReaderProofs SessTable SessHandle SessRecv SessPipe SessFin SessOpen.
 Import ListNotations.
 Import Sess.
